@@ -471,6 +471,9 @@ PAIRS = [
     ("dotted-org-dotted-fid", ("a.b", "c.1"), ("a.b", "c.2")),
     ("org-with-dash", ("A-B", "C"), ("A", "B-C")),
     ("no-org-no-fid", (None, None), (None, None)),
+    ("org-only-vs-org-and-fid", ("FIRST-TECH", None), ("FIRST", "TECH")),
+    ("org-only-vs-fid-only", ("3101", None), (None, "3101")),
+    ("fid-only-vs-other-fid", (None, "17"), (None, "18")),
 ]
 
 
@@ -586,7 +589,7 @@ def run(ctx):
         f"(every prefix of the file-operation log x torn prefixes of pending writes, {'coarse' if ctx.quick else 'every byte'}) -> recovery by a fresh client; (3) 2 concurrent "
         f"request_profile calls on one client (no cache / an older cache / an older cache with one caller told 'up to date' and the other sent a newer profile), {'preemption bound 2' if ctx.quick else 'all interleavings'} "
         "of their file and HTTP points, and one preemption at the first visit of every line of ofxtools/Client.py; every execution runs in its own forked process"
-        + ("; 3 calls with bound 2" if ctx.thorough else "") + "; (4) 6 ORG/FID pairs x both orders x {a client per server, one client object re-pointed by assigning url/org/fid} against two servers",
+        + ("; 3 calls with bound 2" if ctx.thorough else "") + "; (4) 9 ORG/FID pairs (incl. clients with only an ORG or only a FID) x both orders x {a client per server, one client object re-pointed by assigning url/org/fid} against two servers",
         "exhaustive": True,
     }
     return {"tally": tally, "coverage": cov, "assumptions": [
